@@ -335,6 +335,10 @@ class WfGen:
             if rec["default"] is None:
                 del rec["default"]
                 rec["src"] = [self.get_ref(t)[0]]
+            elif rng.random() < 0.4:
+                # default (with or without a source) + valueFrom reading self: self must be the default when the
+                # source is absent or null
+                rec["vf"] = ["self_plus", rng.randrange(1, 4)] if t == "int" and rng.random() < 0.7 else ["self"]
             return rec, False, None
         if r < 0.7 and t in ("int", "string", "boolean"):
             q = rng.random()
